@@ -272,8 +272,14 @@ def r1_r2_wire(ctx, rep, R1='C07.R1', R2='C07.R2'):
                         (dotted(tt) or '').endswith('.num_ran') for tt in x.targets)
                     for x in ast.walk(r.node)):
                 role = 'RAN'            # unpacked into a local that is then stored as <result>.num_ran
+            # the unpacked local itself, or a local it is copied to (nfail = parsed_failures)
+            copies = {d}
+            if isinstance(t, ast.Name):
+                for x in ast.walk(r.node):
+                    if isinstance(x, ast.Assign) and is_name(x.value, t.id):
+                        copies |= {tt.id for tt in x.targets if isinstance(tt, ast.Name)}
             for lp, counter, acc, nexts, apps, decs in loops:
-                if d == counter:
+                if counter in copies:
                     role = {'failures': 'NFAIL', 'errors': 'NERR', 'skipped': 'NSKIP'}.get(acc, '?' + acc)
             rfields.append(role)
     ok = bool(wfields) and wfields == rfields and not any(f.startswith('?') for f in wfields) and \
@@ -281,6 +287,36 @@ def r1_r2_wire(ctx, rep, R1='C07.R1', R2='C07.R2'):
     rep.check(ok, R1, 'header fields writer %s == reader %s' % (wfields, rfields),
               'the child writes %s but the parent reads %s' % (wfields, rfields),
               key='header', func=READER, where=ctx.where(r, hp.ast) if hp is not None else READER)
+    # the header is recognised by its syntax alone: a line of three integers IS the header, whatever
+    # the numbers are (more failures than tests: several failing subtests; 0 0 1: a layer that
+    # could not be set up).  No comparison among the parsed counters guards the acceptance.
+    if hp is not None:
+        from .common import guard_literals
+        counters = set()
+        for t in hp.ast.targets[0].elts:
+            if isinstance(t, ast.Name):
+                counters.add(t.id)
+        lpnodes = [x for x in ast.walk(r.node) if isinstance(x, ast.For) and any(y is hp.ast for y in ast.walk(x))]
+        value_tests = []
+        for lp_ in lpnodes[-1:]:
+            for st in ast.walk(lp_):
+                tests = []
+                if isinstance(st, (ast.If, ast.While, ast.IfExp, ast.Assert)):
+                    tests.append(st.test)
+                elif isinstance(st, ast.comprehension):
+                    tests += st.ifs
+                for e in tests:
+                    for x in ast.walk(e):
+                        if isinstance(x, (ast.Compare, ast.BinOp)) and any(
+                                isinstance(y, ast.Name) and y.id in counters for y in ast.walk(x)):
+                            value_tests.append(norm(x))
+        rep.check(not value_tests, R1, 'a line of three integers is accepted as the header whatever the numbers are',
+                  'the header line is only accepted under a condition on the reported numbers (%s): a genuine '
+                  'report that does not satisfy it (e.g. more failures than tests -- failing subtests; '
+                  '0 0 1 -- a layer set-up failure in the child) is skipped as noise and the parent '
+                  'records "could not communicate" instead of the child\'s outcome'
+                  % '; '.join(sorted(set(value_tests))[:2]), key='header:syntax-only', func=READER,
+                  where=ctx.where(r, hp.ast))
     # num_ran is what resume_tests sums
     rt = m.func('runner.resume_tests')
     summed = any(isinstance(n, ast.Return) and n.value is not None and 'num_ran' in norm(n.value)
